@@ -32,16 +32,16 @@ Proof. split; [discriminate|]. repeat constructor. Qed.
 Lemma cline_head name : exists x, dm_cline name = gt_c :: x.
 Proof. unfold dm_cline, gt_strip. cbn [app]. apply strip_by_head. reflexivity. Qed.
 
-Lemma dimacs_line_comment k st raw x : gt_strip raw = gt_c :: x ->
-  gio_dimacs_line k st raw = GOk (mkDS (ds_G st) (ds_name st ++ skipn 2 (gt_c :: x)) (ds_m st) (ds_cnt st)).
-Proof. intros E. unfold gio_dimacs_line. rewrite E. rewrite Ascii.eqb_refl. reflexivity. Qed.
+Lemma dimacs_line_comment af k st raw x : gt_strip raw = gt_c :: x ->
+  gio_dimacs_line_gen af k st raw = GOk (mkDS (ds_G st) (ds_name st ++ skipn 2 (gt_c :: x)) (ds_m st) (ds_cnt st)).
+Proof. intros E. unfold gio_dimacs_line_gen. rewrite E. rewrite Ascii.eqb_refl. reflexivity. Qed.
 
-Lemma dimacs_cline k st name : exists nm,
-  gio_dimacs_line k st (dm_cline name ++ [gt_nl]) = GOk (mkDS (ds_G st) nm (ds_m st) (ds_cnt st)).
+Lemma dimacs_cline af k st name : exists nm,
+  gio_dimacs_line_gen af k st (dm_cline name ++ [gt_nl]) = GOk (mkDS (ds_G st) nm (ds_m st) (ds_cnt st)).
 Proof.
   destruct (cline_head name) as [x E]. rewrite E. cbn [app].
   destruct (strip_by_head gt_is_space gt_c (x ++ [gt_nl]) eq_refl) as [t' E2].
-  eexists. apply (dimacs_line_comment k st _ t'). exact E2.
+  eexists. apply (dimacs_line_comment af k st _ t'). exact E2.
 Qed.
 
 (* ---------- problem line ---------- *)
@@ -62,11 +62,11 @@ Proof.
   destruct (print_Z_plain n), (print_Z_plain m). repeat constructor; auto; apply edge_word_token.
 Qed.
 
-Lemma dimacs_line_p k name cnt n m : 0 <= n ->
-  gio_dimacs_line k (mkDS None name (-1) cnt) (dm_pline n m ++ [gt_nl]) =
+Lemma dimacs_line_p af k name cnt n m : 0 <= n ->
+  gio_dimacs_line_gen af k (mkDS None name (-1) cnt) (dm_pline n m ++ [gt_nl]) =
   GOk (mkDS (Some (mkIOG k name n 0 [])) name m cnt).
 Proof.
-  intros Hn. unfold gio_dimacs_line. rewrite strip_pline.
+  intros Hn. unfold gio_dimacs_line_gen. rewrite strip_pline.
   change (dm_pline n m) with (gt_p :: ((gt_sp :: gio_edge_word ++ gt_sp :: gt_print_Z n ++ [gt_sp]) ++ gt_print_Z m)) at 1.
   cbv iota beta. change (Ascii.eqb gt_p gt_c) with false. change (Ascii.eqb gt_p gt_p) with true. cbv iota.
   cbn [ds_G]. rewrite split_pline. change (gt_str_eqb gio_edge_word gio_edge_word) with true. cbn [negb].
@@ -90,25 +90,25 @@ Proof.
   destruct (print_Z_plain (fst e)), (print_Z_plain (snd e)). repeat constructor; auto.
 Qed.
 
-Lemma dimacs_line_e k G name m cnt e : edge_ok G e ->
-  gio_dimacs_line k (mkDS (Some G) name m cnt) (dm_eline e ++ [gt_nl]) =
+Lemma dimacs_line_e af k G name m cnt e : edge_ok G e ->
+  gio_dimacs_line_gen af k (mkDS (Some G) name m cnt) (dm_eline e ++ [gt_nl]) =
   GOk (mkDS (Some (gio_with_edges G (gio_insert (edge_norm (io_kind G) e) (io_edges G)))) name m (cnt + 1)).
 Proof.
-  intros Hok. unfold gio_dimacs_line. rewrite strip_eline.
+  intros Hok. unfold gio_dimacs_line_gen. rewrite strip_eline.
   change (dm_eline e) with (gt_e :: ((gt_sp :: gt_print_Z (fst e) ++ [gt_sp]) ++ gt_print_Z (snd e))) at 1.
   cbv iota beta. change (Ascii.eqb gt_e gt_c) with false. change (Ascii.eqb gt_e gt_p) with false.
   change (Ascii.eqb gt_e gt_e) with true. cbv iota. cbn [ds_G]. rewrite split_eline, !int_print_Z.
   destruct e as [u v]. cbn [fst snd]. rewrite add_edge_ok by exact Hok. reflexivity.
 Qed.
 
-Lemma dimacs_loop_edges k name m : forall es G cnt, Forall (edge_ok G) es ->
-  gio_dimacs_loop k (mkDS (Some G) name m cnt) (map (fun r => r ++ [gt_nl]) (map dm_eline es)) =
+Lemma dimacs_loop_edges af k name m : forall es G cnt, Forall (edge_ok G) es ->
+  gio_dimacs_loop_gen af k (mkDS (Some G) name m cnt) (map (fun r => r ++ [gt_nl]) (map dm_eline es)) =
   GOk (mkDS (Some (gio_with_edges G (insert_all (map (edge_norm (io_kind G)) es) (io_edges G)))) name m
             (cnt + Z.of_nat (length es))).
 Proof.
   induction es as [|e t IH]; intros G cnt HF.
-  - cbn [map gio_dimacs_loop length insert_all fold_left]. rewrite with_edges_self. replace (cnt + Z.of_nat 0) with cnt by lia. reflexivity.
-  - inversion HF as [|x l He Ht]; subst. cbn [map gio_dimacs_loop]. rewrite dimacs_line_e by exact He.
+  - cbn [map gio_dimacs_loop_gen length insert_all fold_left]. rewrite with_edges_self. replace (cnt + Z.of_nat 0) with cnt by lia. reflexivity.
+  - inversion HF as [|x l He Ht]; subst. cbn [map gio_dimacs_loop_gen]. rewrite dimacs_line_e by exact He.
     cbn [gio_bind]. rewrite IH.
     + rewrite with_edges_twice, with_edges_kind, with_edges_edges. cbn [map length]. rewrite insert_all_cons.
       replace (cnt + 1 + Z.of_nat (length t)) with (cnt + Z.of_nat (S (length t))) by lia. reflexivity.
@@ -141,15 +141,15 @@ Lemma insert_all_self l : ssorted l -> insert_all l [] = l.
 Proof. intros H. apply insert_all_rebuild; [exact H|]. intros x. reflexivity. Qed.
 
 (* ---------- write then read ---------- *)
-Theorem dimacs_roundtrip G : gio_wf G -> io_kind G <> GioBipartite -> no_nl (io_name G) ->
-  exists nm, gio_read_dimacs (io_kind G) (gio_write_dimacs G) = GOk (mkIOG (io_kind G) nm (io_n G) (io_r G) (io_edges G)).
+Theorem dimacs_roundtrip_gen af G : gio_wf G -> io_kind G <> GioBipartite -> no_nl (io_name G) ->
+  exists nm, gio_read_dimacs_gen af (io_kind G) (gio_write_dimacs G) = GOk (mkIOG (io_kind G) nm (io_n G) (io_r G) (io_edges G)).
 Proof.
   intros (Hn & Hr & Hk & Hs & Hf) HK Hname. specialize (Hk HK).
-  unfold gio_read_dimacs. rewrite write_dimacs_rows. rewrite <- (app_nil_r (concat _)), lines_rows.
+  unfold gio_read_dimacs_gen. rewrite write_dimacs_rows. rewrite <- (app_nil_r (concat _)), lines_rows.
   2:{ constructor; [now apply cline_no_nl|]. constructor; [apply pline_no_nl|].
       apply Forall_forall. intros r Hin. apply in_map_iff in Hin as [e [<- _]]. apply eline_no_nl. }
-  cbn [gt_lines]. rewrite app_nil_r. cbn [map gio_dimacs_loop].
-  destruct (dimacs_cline (io_kind G) (mkDS None [] (-1) 0) (io_name G)) as [nm E]. rewrite E.
+  cbn [gt_lines]. rewrite app_nil_r. cbn [map gio_dimacs_loop_gen].
+  destruct (dimacs_cline af (io_kind G) (mkDS None [] (-1) 0) (io_name G)) as [nm E]. rewrite E.
   cbn [gio_bind ds_G ds_m ds_cnt]. rewrite dimacs_line_p by exact Hn. cbn [gio_bind].
   set (G0 := mkIOG (io_kind G) nm (io_n G) 0 []).
   assert (Hall : Forall (fun e => edge_norm (io_kind G) e = e /\ edge_ok G0 e) (io_edges G)).
@@ -164,3 +164,7 @@ Proof.
   - symmetry. rewrite <- (map_id (io_edges G)) at 2. apply map_ext_in. intros e He.
     rewrite Forall_forall in Hall. now destruct (Hall e He).
 Qed.
+
+Theorem dimacs_roundtrip G : gio_wf G -> io_kind G <> GioBipartite -> no_nl (io_name G) ->
+  exists nm, gio_read_dimacs (io_kind G) (gio_write_dimacs G) = GOk (mkIOG (io_kind G) nm (io_n G) (io_r G) (io_edges G)).
+Proof. exact (dimacs_roundtrip_gen false G). Qed.
